@@ -7,6 +7,7 @@ import json, os, shutil, subprocess, sys, time
 
 src, dest = sys.argv[1], sys.argv[2]
 fast = "--fast" in sys.argv
+related = "--related" in sys.argv   # run only the test modules related to the touched files (same directory + modules naming the touched module)
 wt = f"/var/tmp/osv/wt-{dest}"
 env = dict(os.environ, PYTHONPATH=wt, PYTHONHASHSEED="0", OMP_NUM_THREADS="2", TQDM_DISABLE="1")
 subprocess.run(["git", "-C", "/repo", "worktree", "remove", "--force", wt], capture_output=True)
@@ -26,7 +27,53 @@ try:
         res["apply_err"] = a.stderr[-500:]
     rc1, out1 = demo()
     res["demo_with_patch"] = {"rc": rc1, "tail": out1}
-    if not fast:
+    if related:
+        import re, glob
+        t0 = time.time()
+        touched = re.findall(r"^\+\+\+ b/(\S+)", open(os.path.join(src, "patch.diff")).read(), re.M)
+        tests = set()
+        alltests = [f for f in subprocess.run(["git", "-C", wt, "ls-files", "*_test.py", "*test_*.py"], capture_output=True, text=True).stdout.split() if f.endswith(".py")]
+        for f in touched:
+            d0 = os.path.dirname(f); mod = os.path.basename(f)[:-3]
+            for t in alltests:
+                if os.path.dirname(t) == d0:
+                    tests.add(t)
+                else:
+                    try:
+                        txt = open(os.path.join(wt, t)).read()
+                    except Exception:
+                        continue
+                    if re.search(r"\b" + re.escape(mod.lstrip("_")) + r"\b", txt) and (mod.lstrip("_") not in ("core", "nn", "values", "common", "__init__") or "torch_lib" in t):
+                        tests.add(t)
+        heavy = [t for t in tests if "torch_lib" in t and "ops_test" in t and not any("torch_lib" in f for f in touched)]
+        tests = sorted(tests - set(heavy))
+        def run_tests(tree, what):
+            r = subprocess.run(["/venv/bin/python", "-m", "pytest", "-q", "-p", "no:cacheprovider", "--timeout=900", "-n", "4", "-rfE", "--color=no"] + what,
+                               cwd=tree, env=dict(env, PYTHONPATH=tree), capture_output=True, text=True)
+            bad = sorted(set(re.findall(r"^(?:FAILED|ERROR) (\S+)", r.stdout, re.M)))
+            return r, bad
+        r, bad = run_tests(wt, tests)
+        tail = (r.stdout or "").strip().splitlines()[-1:]
+        ok = r.returncode == 0
+        also_on_head = []
+        if not ok and bad:
+            # tests that fail in this sandbox on the unmodified tree too (git-lfs pointer files, backend loader) do not count
+            base = f"/var/tmp/osv/wt-{dest}-base"
+            subprocess.run(["git", "-C", "/repo", "worktree", "remove", "--force", base], capture_output=True)
+            subprocess.run(["git", "-C", "/repo", "worktree", "add", "--detach", base, "HEAD"], check=True, capture_output=True)
+            try:
+                files = sorted(set(b.split("::")[0] for b in bad))
+                r0, bad0 = run_tests(base, files)
+                also_on_head = [b for b in bad if b in bad0]
+                ok = set(bad) <= set(bad0)
+            finally:
+                subprocess.run(["git", "-C", "/repo", "worktree", "remove", "--force", base], capture_output=True)
+                shutil.rmtree(base, ignore_errors=True)
+        res["related_tests_with_patch"] = {"ok": ok, "n_files": len(tests), "files": tests[:40], "summary": tail, "failing_with_patch": bad[:30],
+                                           "failing_on_head_too": also_on_head[:30], "wall_s": round(time.time() - t0)}
+        if not ok:
+            res["related_tests_with_patch"]["fail_tail"] = r.stdout[-1500:]
+    elif not fast:
         t0 = time.time()
         xml = f"/var/tmp/osv/{dest}.xml"
         subprocess.run(["/venv/bin/python", "-m", "pytest", "-q", "-p", "no:cacheprovider", "--timeout=900",
@@ -57,7 +104,7 @@ try:
             ok = not still and len(miss) <= 25
         res["baseline_with_patch"] = {"ok": ok, "out": c.stdout[-1500:], "reran_alone": rerun, "wall_s": round(time.time() - t0)}
         os.remove(xml) if os.path.exists(xml) else None
-    res["confirmed"] = bool(rc0 == 0 and res["patch_applies"] and rc1 != 0 and (fast or res["baseline_with_patch"]["ok"]))
+    res["confirmed"] = bool(rc0 == 0 and res["patch_applies"] and rc1 != 0 and (res["related_tests_with_patch"]["ok"] if related else (fast or res["baseline_with_patch"]["ok"])))
 finally:
     subprocess.run(["git", "-C", "/repo", "worktree", "remove", "--force", wt], capture_output=True)
     shutil.rmtree(wt, ignore_errors=True)
